@@ -52,6 +52,14 @@ CHECKS['C18'] = dict(
     level='proof',
     text='Theorems in Coq: whenever receive_data raises an h2 exception, the final state is a state reached inside the call, closed, with exactly one frame appended: GOAWAY(last_stream_id = highest inbound stream id, code = the exception code) (induction over the receive loop, any number of frames, leftovers of earlier failing batches included); closed form of _terminate_connection; the code of every exception class read from the class attributes; oversized frame -> FrameTooLargeError (extracted guard), oversized header list -> ENHANCE_YOUR_CALM. COMPRESSION_ERROR for undecodable blocks is a known finding (tests pin PROTOCOL_ERROR). Violation-heavy traffic is compared with the model and judged by an independent error-category classifier.',
     design='7.C18', technique='Coq induction over the receive loop + generated exception table + differential correspondence with classifier oracle')
+CHECKS['C29'] = dict(
+    level='proof',
+    text='Theorems in Coq over the connection model: a stream id that is not in the stream table makes the lookup raise StreamClosedError when it is at or below the watermark of its direction and NoSuchStreamError when above (comparison extracted from _get_stream_by_id); end_stream, reset_stream, increment_flow_control_window and send_data on such an id report exactly that (closed forms: no KeyError, only the state machine state changes); ping and reset_stream append nothing when they raise. Three call patterns that leak non-h2 exceptions or append bytes before raising are refuted with vm_compute witnesses (known findings F-C29-1..4). Every public call with arbitrary ids in every state (directed programs over streams in every state) is compared with the model; partial: interpreter-level exceptions outside the modelled primitives are not covered.',
+    design='7.C29', technique='Coq closed-form theorems + refutation witnesses + differential correspondence over directed state-zoo programs')
+CHECKS['C27'] = dict(
+    level='proof',
+    text='Theorems in Coq: the memory of closed streams never exceeds MAX_CLOSED_STREAMS over EVERY history (induction over all operations with the eviction test extracted from SizeLimitDict, unbounded length); PRIORITY on any id leaves the whole state unchanged; RST_STREAM / WINDOW_UPDATE on unknown ids and unknown frame types allocate no stream state; a decoded header list above the acknowledged MAX_HEADER_LIST_SIZE is refused with ENHANCE_YOUR_CALM (11). Long peer-driven programs are compared with the model on the stream tables; the CONTINUATION limit is covered by the frame-buffer model of C21.',
+    design='7.C27', technique='Coq invariant by induction over histories + extracted guard + differential correspondence')
 NA_REASON = {}
 def main():
     checks = []
